@@ -1453,6 +1453,22 @@ func realCase(e *lp.Exec, c cfg) {
 	if len(all) != len(sent) {
 		e.Oracle("c02-stranded", "closed on peer half-close with %d unread in the kernel queue mode=%s async=%v typ=%s cap=%d rbs=%d (real kernel)", len(sent)-len(all), c.mode, c.isAsync(), c.typ, c.cap, c.rbs)
 	}
+	mu.Unlock()
+	// an asynchronous dial whose connect completes at once (unix) or almost at once (loopback tcp): with nothing to send
+	// and nothing to read, the poller that owns the dialed conn must be idle too
+	dialed := make(chan error, 1)
+	var dc *nbio.Conn
+	if err := g.DialAsync(network, g.Addrs[0], func(nc *nbio.Conn, err error) { dc = nc; dialed <- err }); err == nil {
+		select {
+		case err := <-dialed:
+			if err == nil {
+				idle()
+				_ = dc.Close()
+			}
+		case <-time.After(3 * time.Second):
+		}
+	}
+	mu.Lock()
 }
 
 func main() { lp.Main(gen, exec) }
